@@ -3,7 +3,8 @@
    Modelled by hand (line numbers of /repo/src/css_parser at the time of writing):
      util.urljoin                           util.py:1092-1142        -> urljoin / unparse
      util._readUrl                          util.py:889-972          -> readurl (ladder = Gen.Import.ladder, generated)
-     CSSImportRule._setHref                 css/cssimportrule.py:262-323 -> set_href
+     CSSImportRule._loadImport (+ _setHref = _loadImport; _commitHref, and _setCssText loading before it commits)
+                                            css/cssimportrule.py:272-355 -> set_href
      CSSStyleSheet._resolveImport, _setCssTextWithEncodingOverride, _setEncoding,
        the import/namespace/... handlers of _setCssText, the retry at the end of insertRule
                                             css/cssstylesheet.py     -> items_loop / parse_src / parse_string
